@@ -79,7 +79,7 @@ def spawn_worker(prop, tier, seed, w, nw, out, soft, buckets, recheck, indices=N
         "--soft", str(soft),
         "--buckets", str(buckets),
         "--recheck", str(recheck),
-        "--replay-dir", REPLAY_DIR,
+        "--replay-dir", "" if no_shrink else REPLAY_DIR,
     ]
     if indices is not None:
         cmd += ["--indices", ",".join(str(i) for i in indices)]
@@ -151,7 +151,14 @@ def run_check(prop, tier, seed=None, scale=1.0):
         # cross-process determinism sample: re-run a few indices in a fresh interpreter with
         # another PYTHONHASHSEED and compare digests
         ok_lines = [ln for ln in all_lines if "digest" in ln]
-        sample_idx = sorted({ln["idx"] for ln in ok_lines})[:: max(1, len(ok_lines) // 24)][:24]
+        all_idx = sorted({ln["idx"] for ln in ok_lines})
+        if spec.engine == "A":
+            sample_idx = all_idx[:: max(1, len(all_idx) // 24)][:24]
+        else:  # every new structure costs a compilation: take a few indices from three buckets
+            K = spec.bucket_k
+            bks = sorted({i // K for i in all_idx})
+            chosen = {bks[0], bks[len(bks) // 2], bks[-1]} if bks else set()
+            sample_idx = [i for i in all_idx if i // K in chosen and i % K < 4]
         det = {"sampled": 0, "mismatch": 0}
         if sample_idx and not harness_errors:
             out = os.path.join(work, "det.jsonl")
